@@ -824,7 +824,7 @@ func TestC03(t *testing.T) {
 // and gRPC StreamingPull handler)
 func streamLease(t *testing.T, st *Stats) {
 	pullExclusive(t, st)
-	if len(st.Violations) > 0 {
+	if hasConcrete(st.Violations) {
 		return
 	}
 	cases := []c11Case{
